@@ -260,7 +260,9 @@ func (d *decoder[T]) kInterfaceNaked(f *decFnInfo) (rvn reflect.Value) {
 				if bfn.ext == SelfExt {
 					// bytes is a view handed back by the reader (see DecodeNaked)
 					bytes = d.sideDecodeInput(bytes, d.attachState(!d.bytes))
-					sideDecode(d.hh, &d.h.sideDecPool, func(sd decoderI) { oneOffDecode(sd, rv2i(rvn), bytes, bfn.rt, true) })
+					d.depthIncr() // the payload nests a value like a container does
+					sideDecode(d.hh, &d.h.sideDecPool, func(sd decoderI) { oneOffDecode(sd, rv2i(rvn), bytes, bfn.rt, true, d.depth) })
+					d.depthDecr()
 				} else {
 					bfn.ext.ReadExt(rv2i(rvn), bytes)
 				}
